@@ -182,6 +182,11 @@ func runC07(c *core.Ctx) {
 	c.Rule("R6", "sender recover path: release the flag, then Close with the exception", 1)
 	runSenderRecover(c, e, "R6")
 	ruleFailedSenderReleasesCloser(c, e, "R6")
+	// exceptions are delivered to every handler that declares HandleException, in order (the context records that
+	// role for every handler kind), and carry the failure that happened (transport errors are not rewritten)
+	c.Rule("R7", "every handler's exception role is recorded by the context constructor; the exact-length reader rewrites only io.EOF (shared with C03-R3, C08-R7)", 2)
+	importObligations(c, runC03, "R7", func(o *core.Obligation) bool { return o.Rule == "R3" && strings.Contains(o.Key, "ctor/cast") })
+	importObligations(c, runC08, "R7", func(o *core.Obligation) bool { return strings.Contains(o.Key, "maps-only-eof") })
 
 	// ---- R4
 	e.checkAsException(c)
